@@ -579,6 +579,33 @@ def check_keycover(cl, mod, cls, func):
         else:
             out.append(result(nm, "failed", "config value %s[%r] is read by the fresh computation but does not feed `%s`" % (x, k, key_var),
                               "key-determines"))
+    # (4) attributes of the turn context read after the lookup (ctx.x / getattr(ctx, "x", ..)): each one must also be read by
+    #     an expression that feeds the key, or be exempt with a reason
+    ctxv = cl.get("ctx_var")
+    if ctxv:
+        def ctx_attrs(nodes):
+            found = set()
+            for n0 in nodes:
+                for x in ast.walk(n0):
+                    if isinstance(x, ast.Attribute) and isinstance(x.value, ast.Name) and x.value.id == ctxv and isinstance(x.ctx, ast.Load):
+                        found.add(x.attr)
+                    if isinstance(x, ast.Call) and isinstance(x.func, ast.Name) and x.func.id in ("getattr", "hasattr") and len(x.args) >= 2 \
+                            and isinstance(x.args[0], ast.Name) and x.args[0].id == ctxv and isinstance(x.args[1], ast.Constant):
+                        found.add(str(x.args[1].value))
+            return found
+        key_side = set()
+        for nmv in closure:
+            key_side |= ctx_attrs(defs.get(nmv, []))
+        ex_ctx = cl.get("exempt_ctx", {})
+        for a in sorted(ctx_attrs(region_nodes)):
+            nm = "%s/key-determines-ctx:%s.%s" % (cl["name"], ctxv, a)
+            if a in key_side:
+                out.append(result(nm, "proved", where="%s.%s is read by a binding that feeds the key" % (ctxv, a)))
+            elif a in ex_ctx:
+                out.append(result(nm, "proved", where="exempt: " + ex_ctx[a]))
+            else:
+                out.append(result(nm, "failed", "the fresh computation reads %s.%s after the lookup but `%s` is not built from it: two "
+                                                "calls that differ only in %s.%s share a cache entry" % (ctxv, a, key_var, ctxv, a), "key-determines"))
     out.append(result(cl["name"] + "/analysed", "proved", where="%d inputs, %d config reads in the region; key closure = %s" % (
         len(cl.get("inputs", [])), len(region_cfg), sorted(closure)[:40])))
     return out
